@@ -473,14 +473,15 @@ def check(run):
                 got = dig(extra[i]["ser"], path)
             except (KeyError, IndexError, TypeError):
                 got = None
-            loss = "the object is missing from the result" if got is None else preserved(o, got, defaults)
+            presented = dig(c["data"], path)     # the object as it was handed over in this context
+            loss = "the object is missing from the result" if got is None else preserved(presented, got, defaults)
         if loss is None:
             continue
         if f:
             explained.add(tuple(f))
         fid, _ = classify(loss, cid, o, how)
         rep = {"case": {k: c[k] for k in ("op", "cid", "data", "allow", "interop")}, "context": ctx, "path": path,
-               "class": cid, "object": o, "loss": loss, "origin": how}
+               "class": cid, "object": dig(c["data"], path), "loss": loss, "origin": how}
         what = "spec-valid %s (%s, %s) %s" % (cid, ctx, how, loss)
         run.violations.append(Violation(what, dict(rep, finding=fid), finding=fid))
     run.coverage["contexts"] = ctxhist
